@@ -35,12 +35,14 @@ var (
 		{0x00, 0x02, 0x03, 0x04, 0x15, 0x01}, // 5 c3
 		{0x00, 0x02, 0x03, 0x14, 0x05, 0x01}, // 6 c4
 		{0x00, 0x02, 0x13, 0x04, 0x05, 0x02}, // 7 c5
+		{0x00, 0x03, 0x02, 0x04, 0x05, 0x01}, // 8 c6: c1 with bytes 1 and 2 swapped (equal under OR / XOR / sum of those bytes)
+		{0x00, 0x00, 0x5e, 0x00, 0x01, 0x01}, // 9 c7: a VRRP virtual router MAC - an ordinary unicast station as far as tracking goes
 	}
-	hMACName = []string{"own", "router", "mcast", "c1", "c2", "c3", "c4", "c5"}
+	hMACName = []string{"own", "router", "mcast", "c1", "c2", "c3", "c4", "c5", "c6", "c7"}
 )
 
 const (
-	mOwn, mRouter, mMcast, mC1, mC2, mC3, mC4, mC5 = 0, 1, 2, 3, 4, 5, 6, 7
+	mOwn, mRouter, mMcast, mC1, mC2, mC3, mC4, mC5, mC6, mC7 = 0, 1, 2, 3, 4, 5, 6, 7, 8, 9
 )
 
 // IPv4 indices are relative to the configured LAN (see histCfg.ip4).
@@ -466,6 +468,7 @@ func runHistory(tb drv.TB, rec *drv.Rec, sub string, h history, or histOracles) 
 			n := copy(buf, fb)
 			var frame packet.Frame
 			var err error
+			t0 := time.Now()
 			panicked, psig, pst = drv.Catch(func() { frame, err = s.Parse(buf[:n]) })
 			if panicked != nil {
 				break
@@ -473,6 +476,17 @@ func runHistory(tb drv.TB, rec *drv.Rec, sub string, h history, or histOracles) 
 			if err != nil {
 				violate(step, "parse-error", "Parse rejected a well-formed frame: %v", err)
 				return
+			}
+			// silence is counted from the station's last frame: every frame of a tracked source must move its LastSeen (and
+			// its MAC entry's) to the moment it was parsed - however recently it was heard before
+			if frame.Host != nil && (or.Tables || or.Notes) {
+				frame.Host.MACEntry.Row.RLock()
+				ls, mls := frame.Host.LastSeen, frame.Host.MACEntry.LastSeen
+				frame.Host.MACEntry.Row.RUnlock()
+				if ls.Before(t0) || mls.Before(t0) {
+					violate(step, "hist-lastseen-not-refreshed", "after this frame the host's LastSeen is %v and its MAC entry's %v before the moment of the Parse call", t0.Sub(ls), t0.Sub(mls))
+					return
+				}
 			}
 			// model
 			var mh *mHost
